@@ -9,6 +9,7 @@ import AdbModel.Generated.Src
   counter is the one the OPEN carries, is the generated lock facts + correspondence part of C14, not this file.)
   Only property theorems and non-vacuity examples live here.
 -/
+set_option linter.unusedSimpArgs false
 namespace Adb
 open Py
 
@@ -18,37 +19,37 @@ theorem C14_src_alloc_sync (cls : String) (fs : List (String × Py.Val)) (c : Na
     ∃ fs', Src.AdbDevice_open_alloc_id (.obj cls fs) = .ok (Py.Val.none, .obj cls fs')
       ∧ alookupS "_local_id" fs' = some (.int (nextId c)) ∧ ∀ k, k ≠ "_local_id" → alookupS k fs' = alookupS k fs := by
   by_cases hw : c + 1 = 4294967296
-  · refine ⟨asetS "_local_id" (.int 1) (asetS "_local_id" (.int ((c : Int) + 1)) fs), ?_, ?_, ?_⟩
-    · have : (c : Int) + 1 = 4294967296 := by omega
-      simp [Src.AdbDevice_open_alloc_id, getAttr, h, add, asInt, setPath, setAcc, setAttr, eqV, eq, truthy, bind, Except.bind, pure, Except.pure, this]
-    · simp [nextId, hw]
-    · intro k hk; rw [alookupS_asetS_other _ _ _ _ hk, alookupS_asetS_other _ _ _ _ hk]
-  · refine ⟨asetS "_local_id" (.int ((c : Int) + 1)) fs, ?_, ?_, ?_⟩
-    · have : ¬ (c : Int) + 1 = 4294967296 := by omega
-      simp [Src.AdbDevice_open_alloc_id, getAttr, h, add, asInt, setPath, setAcc, setAttr, eqV, eq, truthy, bind, Except.bind, pure, Except.pure, this]
-    · simp [nextId, hw]
-    · intro k hk; rw [alookupS_asetS_other _ _ _ _ hk]
+  · have e1 : (c : Int) + 1 = 4294967296 := by omega
+    have e2 : (c : Int) = 4294967295 := by omega
+    simp [Src.AdbDevice_open_alloc_id, pysimp, h, nextId, hw, e1, e2]
+    intro k hk; simp [hk]
+  · have e1 : ¬ (c : Int) + 1 = 4294967296 := by omega
+    have e2 : ¬ (c : Int) = 4294967295 := by omega
+    simp [Src.AdbDevice_open_alloc_id, pysimp, h, nextId, hw, e1, e2]
+    intro k hk; simp [hk]
 
 /-- Async class: the same statement for `AdbDeviceAsync._open`. -/
 theorem C14_src_alloc_async (cls : String) (fs : List (String × Py.Val)) (c : Nat) (h : alookupS "_local_id" fs = some (.int c)) :
     ∃ fs', Src.AdbDeviceAsync_open_alloc_id (.obj cls fs) = .ok (Py.Val.none, .obj cls fs')
       ∧ alookupS "_local_id" fs' = some (.int (nextId c)) ∧ ∀ k, k ≠ "_local_id" → alookupS k fs' = alookupS k fs := by
   by_cases hw : c + 1 = 4294967296
-  · refine ⟨asetS "_local_id" (.int 1) (asetS "_local_id" (.int ((c : Int) + 1)) fs), ?_, ?_, ?_⟩
-    · have : (c : Int) + 1 = 4294967296 := by omega
-      simp [Src.AdbDeviceAsync_open_alloc_id, getAttr, h, add, asInt, setPath, setAcc, setAttr, eqV, eq, truthy, bind, Except.bind, pure, Except.pure, this]
-    · simp [nextId, hw]
-    · intro k hk; rw [alookupS_asetS_other _ _ _ _ hk, alookupS_asetS_other _ _ _ _ hk]
-  · refine ⟨asetS "_local_id" (.int ((c : Int) + 1)) fs, ?_, ?_, ?_⟩
-    · have : ¬ (c : Int) + 1 = 4294967296 := by omega
-      simp [Src.AdbDeviceAsync_open_alloc_id, getAttr, h, add, asInt, setPath, setAcc, setAttr, eqV, eq, truthy, bind, Except.bind, pure, Except.pure, this]
-    · simp [nextId, hw]
-    · intro k hk; rw [alookupS_asetS_other _ _ _ _ hk]
+  · have e1 : (c : Int) + 1 = 4294967296 := by omega
+    have e2 : (c : Int) = 4294967295 := by omega
+    simp [Src.AdbDeviceAsync_open_alloc_id, pysimp, h, nextId, hw, e1, e2]
+    intro k hk; simp [hk]
+  · have e1 : ¬ (c : Int) + 1 = 4294967296 := by omega
+    have e2 : ¬ (c : Int) = 4294967295 := by omega
+    simp [Src.AdbDeviceAsync_open_alloc_id, pysimp, h, nextId, hw, e1, e2]
+    intro k hk; simp [hk]
 
-/-! ### Non-vacuity: wrap-around and the ordinary step, evaluated by the kernel on the generated definition -/
-example : (Src.AdbDevice_open_alloc_id (.obj "AdbDevice" [("_local_id", .int 4294967295), ("_maxdata", .int 4096)])).toOption.map
-    (fun p => (getAttr p.2 "_local_id").toOption.map (fun v => match v with | .int i => i | _ => -1)) = some (some 1) := by decide
-example : (Src.AdbDeviceAsync_open_alloc_id (.obj "AdbDeviceAsync" [("_local_id", .int 41)])).toOption.map
-    (fun p => (getAttr p.2 "_local_id").toOption.map (fun v => match v with | .int i => i | _ => -1)) = some (some 42) := by decide
+/-! ### Non-vacuity: wrap-around and the ordinary step on concrete objects -/
+example : ∃ fs', Src.AdbDevice_open_alloc_id (.obj "AdbDevice" [("_local_id", .int 4294967295), ("_maxdata", .int 4096)]) = .ok (Py.Val.none, .obj "AdbDevice" fs')
+    ∧ alookupS "_local_id" fs' = some (.int 1) ∧ alookupS "_maxdata" fs' = some (.int 4096) := by
+  obtain ⟨fs', h1, h2, h3⟩ := C14_src_alloc_sync "AdbDevice" [("_local_id", .int 4294967295), ("_maxdata", .int 4096)] 4294967295 rfl
+  exact ⟨fs', h1, h2, by rw [h3 "_maxdata" (by decide)]; rfl⟩
+example : ∃ fs', Src.AdbDeviceAsync_open_alloc_id (.obj "AdbDeviceAsync" [("_local_id", .int 41)]) = .ok (Py.Val.none, .obj "AdbDeviceAsync" fs')
+    ∧ alookupS "_local_id" fs' = some (.int 42) := by
+  obtain ⟨fs', h1, h2, _⟩ := C14_src_alloc_async "AdbDeviceAsync" [("_local_id", .int 41)] 41 rfl
+  exact ⟨fs', h1, h2⟩
 
 end Adb
